@@ -11,7 +11,7 @@
 (* independent, so the rest of the trace is still checked): the verdict is *)
 (* printed and counted, and the logged effect becomes the next state.      *)
 (***************************************************************************)
-EXTENDS Bid, Codec, Json, IOUtils
+EXTENDS Bid, Convert, Json, IOUtils
 
 Events == ndJsonDeserialize(IOEnv.VERIF_TRACE)
 
@@ -212,9 +212,79 @@ DecomposeVerdict(e) ==
   ELSE IF ~e.bufok THEN "reject:buffer"
   ELSE "ok"
 
+\* C10
+\* near the bottom of the range a relative bound cannot hold (the format's spacing there is 10^Emin): allow one quantum
+WithinMinQuantum(r, n, d) ==
+  r.q <= Emin + PDigits /\
+  LET a == MulPow10(Mul(r.c, d), r.q - Emin)       \* r * d / 10^Emin
+      b == n                                        \* would need n * 10^-Emin: compare a * 10^Emin-scaled instead
+  IN Le(AbsDiff(MulPow10(a, 0), MulPow10(n, 0 - Emin)), d)
+IntVerdict(e) ==
+  LET x == Decode(e.x) IN
+  CASE e.op = "FromInt64" -> LET r == Decode(e.r) IN
+          B2S(r.k = "fin" /\ CmpMag(r.c, r.q, e.v.l, 0) = 0 /\ r.neg = (e.v.neg /\ e.v.l # << >>))
+    [] e.op = "FromInt" -> IF e.v.l = << >> THEN B2S(ResEq(Decode(e.r), ZeroV(FALSE)))
+                           ELSE Agrees(Rnd(e.v.neg, e.v.l, One, 0), Decode(e.r), mode)
+    [] e.op = "Int" -> IF x.k # "fin" THEN B2S(Panicked(e))
+                       ELSE LET t == TruncMag(x) IN B2S(~Panicked(e) /\ e.z.l = t /\ (t # << >> => e.z.neg = x.neg))
+    [] e.op = "ToInt" -> IF x.k = "nan" THEN B2S(Panicked(e))
+                         ELSE LET s == ToIntSem(x, e.ty) IN
+                              B2S(~Panicked(e) /\ e.n.l = s[2] /\ (s[2] # << >> => e.n.neg = s[1]) /\ e.ok = s[3])
+    [] e.op = "Rat" -> IF x.k # "fin" THEN B2S(Panicked(e))
+                       ELSE IF ~RatOK(x, e.num, e.den) THEN "reject"
+                       ELSE LET fr == Decode(e.fr) IN B2S(fr.k = "fin" /\ CmpVal(fr, x) = 0)
+    [] e.op = "FromRat" ->
+         LET r == Decode(e.r) IN
+         IF e.num.l = << >> THEN B2S(IsZero(r))
+         ELSE IF NumDigits(e.num.l) <= 34 /\ NumDigits(e.den.l) <= 34 THEN Agrees(Rnd(e.num.neg, e.num.l, e.den.l, 0), r, mode)
+         ELSE IF r.k = "nan" \/ r.neg # e.num.neg THEN "reject"
+         ELSE IF r.k = "inf" THEN B2S(CmpVC(MulSmall(e.num.l, 1000), e.den.l, 0, MulSmall(Cmax, 999), Emax) > 0)
+         ELSE IF IsZero(r) THEN B2S(CmpVC(MulSmall(e.num.l, 1000), e.den.l, 0, FromInt(1001), Emin - 1) < 0)
+         ELSE B2S(RelErrLe(r.c, r.q, e.num.l, e.den.l, 0, <<2>>, Pow10(33)) \/ WithinMinQuantum(r, e.num.l, e.den.l))
+
+\* C09
+SameFloat(f, g) == f.cls = g.cls /\ (f.cls = "nan" \/ f.neg = g.neg) /\ (f.cls # "fin" \/ CmpVC(f.m, BinRat(One, 0 - f.e)[1], 0, << >>, 0) = 1)
+FloatEq(f, g) ==   \* same binary value
+  /\ f.cls = g.cls /\ (f.cls = "nan" \/ f.neg = g.neg)
+  /\ (f.cls = "fin" => LET a == BinRat(f.m, f.e)  b == BinRat(g.m, g.e) IN Mul(a[1], b[2]) = Mul(b[1], a[2]))
+FloatVerdict(e) ==
+  CASE e.op \in {"FromFloat64", "FromFloat32"} ->
+         LET r == Decode(e.r) IN
+         IF e.f.cls = "nan" THEN B2S(r.k = "nan")
+         ELSE IF e.f.cls = "inf" THEN B2S(ResEq(r, InfV(e.f.neg)) /\ FloatEq(e.f, e.bf))
+         ELSE IF e.f.cls = "zero" THEN B2S(ResEq(r, ZeroV(e.f.neg)) /\ FloatEq(e.f, e.bf))
+         ELSE LET br == BinRat(e.f.m, e.f.e)
+                  a == Agrees(Rnd(e.f.neg, br[1], br[2], 0), r, mode)
+              IN IF a \notin OkSet THEN a ELSE IF ~FloatEq(e.f, e.bf) THEN "reject:identity" ELSE a
+    [] e.op \in {"Float64", "Float32"} ->
+         LET x == Decode(e.x)
+             p == IF e.op = "Float64" THEN F64P ELSE F32P
+             emin == IF e.op = "Float64" THEN F64Emin ELSE F32Emin
+             top == IF e.op = "Float64" THEN F64Top ELSE F32Top
+         IN IF x.k = "nan" THEN B2S(e.f.cls = "nan")
+            ELSE IF x.k = "inf" THEN B2S(e.f.cls = "inf" /\ e.f.neg = x.neg)
+            ELSE IF IsZero(x) THEN B2S(e.f.cls = "zero" /\ e.f.neg = x.neg)
+            ELSE B2S(FloatAllowed(x, e.f, p, emin, top))
+    [] e.op = "Float" ->
+         LET x == Decode(e.x) IN
+         IF x.k = "nan" THEN B2S(Panicked(e))
+         ELSE IF Panicked(e) THEN "reject:panic"
+         ELSE IF x.k = "inf" THEN B2S(e.f.cls = "inf" /\ e.f.neg = x.neg)
+         ELSE IF IsZero(x) THEN B2S(e.f.cls = "zero" /\ e.f.neg = x.neg)
+         ELSE B2S(BigFloatOK(x, e.f))
+    [] e.op = "FromFloat" ->
+         LET r == Decode(e.r) IN
+         IF e.f.cls = "inf" THEN B2S(ResEq(r, InfV(e.f.neg)))
+         ELSE IF e.f.cls = "zero" THEN B2S(ResEq(r, ZeroV(e.f.neg)))
+         ELSE LET br == BinRat(e.f.m, e.f.e) IN
+              IF r.k = "nan" \/ r.neg # e.f.neg THEN "reject"
+              ELSE IF r.k = "inf" THEN B2S(CmpVC(MulSmall(br[1], 1000), br[2], 0, MulSmall(Cmax, 999), Emax) > 0)
+              ELSE IF IsZero(r) THEN B2S(CmpVC(MulSmall(br[1], 1000), br[2], 0, FromInt(1001), Emin - 1) < 0)
+              ELSE B2S(RelErrLe(r.c, r.q, br[1], br[2], 0, <<2>>, Pow10(33)) \/ WithinMinQuantum(r, br[1], br[2]))
+
 \* documented panics only: anything else that panicked is rejected before its own verdict is consulted
 PanicAllowed(e) ==
-  \/ e.op \in {"Sign", "Payload", "Int", "Rat", "Float", "Int32", "Int64", "Uint32", "Uint64"}
+  \/ e.op \in {"Sign", "Payload", "Int", "Rat", "Float", "ToInt"}
   \/ (e.op = "Parse" /\ e.via = "MustParse")
 
 RawVerdict(e) ==
@@ -232,6 +302,8 @@ RawVerdict(e) ==
          [] e.op = "UnmarshalJSON" -> JsonUnmarshalVerdict(e)
          [] e.op = "UnmarshalDoc" -> JsonDocVerdict(e)
          [] e.op = "Compose" -> ComposeVerdict(e)
+         [] e.op \in {"FromInt64", "FromInt", "Int", "ToInt", "Rat", "FromRat"} -> IntVerdict(e)
+         [] e.op \in {"FromFloat64", "FromFloat32", "Float64", "Float32", "Float", "FromFloat"} -> FloatVerdict(e)
          [] e.op = "Decompose" -> DecomposeVerdict(e)
          [] e.op = "String" -> StringVerdict(e)
          [] e.op \in {"MarshalBinary", "UnmarshalBinary"} -> BinaryVerdict(e)
